@@ -148,7 +148,7 @@ def replay_mechanism(walk_states, ctx, N, counters):
                     ctx.violation(f"mechanism:{jn}:{k}", f"{jn}: body-fixed {k} changed from {np.round(m.ref[jn][k], 6).tolist()} to "
                                   f"{np.round(pr[jn][k], 6).tolist()} after {hist}", rep)
                     return
-            if np.max(np.abs(pr[jn]["g"])) > 1e-9:
+            if not (np.max(np.abs(pr[jn]["g"])) <= 1e-9):
                 ctx.violation(f"mechanism:{jn}:g", f"{jn} is no longer satisfied by the mechanism pose (g = {pr[jn]['g'].tolist()}) after {hist}", rep)
                 return
         if pr["spring"] != m.ref["spring"] or pr["angle0"] != m.ref["angle0"]:
